@@ -87,7 +87,7 @@ pub fn lit_value(rng: &mut Rng, w: WidthInt) -> BitVecValue {
 
 /// A shift amount of width `w`: below / at / above the width, >= 2^32, >= 2^64 where representable.
 pub fn shift_amount(rng: &mut Rng, w: WidthInt) -> BitVecValue {
-    let choice = rng.below(7);
+    let choice = rng.below(8);
     let small = |v: u64| -> Option<BitVecValue> {
         if w >= 64 || v < (1u64 << w) { Some(BitVecValue::from_u64(v, w)) } else { None }
     };
@@ -120,6 +120,15 @@ pub fn shift_amount(rng: &mut Rng, w: WidthInt) -> BitVecValue {
             }
         }
         5 => small(0),
+        // whole-word shifts (multiples of 64 below the width)
+        6 => {
+            if w > 64 {
+                let k = 1 + rng.below(((w - 1) / 64) as u64);
+                small(64 * k)
+            } else {
+                None
+            }
+        }
         _ => None,
     };
     r.unwrap_or_else(|| lit_value(rng, w))
